@@ -10,7 +10,7 @@ from .. import cborr, cose, gen, suitwalk, world
 from ..prng import Stream
 from ..runner import Machine, violation
 
-SIZES = [0, 1, 23, 24, 255, 256, 4096, 65535, 65536, 70001]
+SIZES = [0, 1, 23, 24, 255, 256, 4096, 65535, 65536, 70001, 131072, 196608]
 BLOB_NAMES = ["fw_app.bin", "fw_rad.bin", "cafe", "deadbeef", "abc", "00", "image with space.bin", "zażółć.bin", "A1B2.hex"]
 SEVERABLE_IDS = {16: "suit-payload-fetch", 20: "suit-install", 15: "suit-dependency-resolution",
                  18: "suit-candidate-verification", 23: "suit-text"}
@@ -63,7 +63,9 @@ class Pipeline(Machine):
             # referenced files reached through symbolic links (a "current.bin -> ../store/app_v2.bin" build tree)
             "symlinks": s.chance(0.3),
         }
-        blobs = [[n, s.choice(SIZES if tier == "thorough" else SIZES[:8])] for n in s.sample(BLOB_NAMES, s.randint(2, 5))]
+        # exact multiples of 64 KiB (a chunked reader / hasher with a wrong last chunk) also in the quick tier, less often
+        blobs = [[n, s.choice(SIZES if tier == "thorough" else SIZES[:8] * 3 + [65536, 65536, 131072])]
+                 for n in s.sample(BLOB_NAMES, s.randint(2, 5))]
         feats = [f for f in gen.ALL_FEATURES if s.chance(0.6)]
         if prop == "C05" and "refs" not in feats:
             feats.append("refs")
@@ -328,6 +330,12 @@ class Pipeline(Machine):
                 form = op["dep_form"] if op["dep_form"] != "mixed" else s.choice(["inline", "path"])
                 deps[f"#dep{dk}"] = cdesc
                 dep_exp[f"#dep{dk}"] = {"desc": cdesc, "form": form}
+            if s.chance(0.25):
+                # two siblings with identical content under different names (the same radio image for two cores)
+                twin = copy.deepcopy(deps["#dep0"])
+                deps["#dep0_twin"] = twin
+                dep_exp["#dep0_twin"] = {"desc": twin, "form": s.choice(["inline", "path"])}
+                model["_extra"]["identical_sibling_dependencies"] = model["_extra"].get("identical_sibling_dependencies", 0) + 1
         g = gen.DescGen(s.sub("root"), op["features"], w, size=op["size"])
         desc = g.envelope(payload_names=payloads or None, dep_names=None)
         refs = list(g.refs)
